@@ -2,7 +2,7 @@
    Proof/Fun2CoreTyTotal  -  no internal failure of fun2core on guarded programs (C12):
      prog_tyguard p = true -> exists c, compile_prog p = Ok c.
    The failures of the model are `.expect("Types should be annotated ..")` - the guard [tg] demands every
-   annotation the translation reads - and, since the repair <commitcap>, the (unbounded recursion of the Rust code
+   annotation the translation reads - and, since the repair d5d4151, the (unbounded recursion of the Rust code
    in the) case that the fresh covariable that names a continuation is itself captured by the binder: impossible,
    because the state of the translation of a definition records all its binders ([tot] carries the invariant
    B <= used variables, B the binders of the definition body).
